@@ -95,6 +95,12 @@ func dnShape(cn string, shape int) []byte {
 		seq = pkix.RDNSequence{one(oidC, "DE"), one(oidO, "Sim"), one(oidCN, cn), ia5(oidEmail, "ca@example.sim")}
 	case 5: // multi-valued RDN
 		seq = pkix.RDNSequence{one(oidO, "Sim"), pkix.RelativeDistinguishedNameSET{{Type: oidCN, Value: cn}, {Type: oidOU, Value: "Multi"}}}
+	case 6: // canonical form with a non-ASCII last letter: two such names differ in one UTF-8 continuation byte only
+		r := map[byte]string{'A': "Ä", 'B': "Ö"}[cn[len(cn)-1]]
+		if r == "" {
+			r = "Ü"
+		}
+		seq = pkix.RDNSequence{one(oidO, "Sim"), one(oidCN, cn[:len(cn)-1]+r)}
 	default:
 		return nil
 	}
